@@ -85,6 +85,10 @@ def spaces(tier, seed):
         Product("parse-function-selection-forms", {"rl": range(len(regional)), "order": [0, 1, 2]},
                 note="dateparser.parse() called with the same codes as languages= (+region) and as locales=, in either order, and with a locale code given "
                      "as a language: every call must give what a fresh DateDataParser with the same arguments gives (two- and three-call histories)"),
+        Product("two-parsers-that-try-previous-locales", {"a": range(len(TPL)), "b": range(len(TPL)), "s": ["01/02/2020", "05.06.07", "3-4-2019 10:30"], "third": [False, True]},
+                note="two (or three) DateDataParser objects with try_previous_locales=True and different languages: the first parses a string of its own language, "
+                     "then the second parses a numeric string - the reported locale must be the second parser's language and the result what a parser without "
+                     "try_previous_locales gives (the locales a parser remembers are its own)"),
         Product("autodetect-with-and-without-region", {"region": ["AU", "GB", "SE", "CA", "US", "IN", "ZA", "DE", "FR", "BR", "MX", "CH"], "s": ["01/02/2020", "05.06.07", "3-4-2019 10:30", "02/03/2020 lundi"],
                                                        "order": [0, 1, 2]},
                 note="DateDataParser() and DateDataParser(region=R) on the very same string, in both orders and via dateparser.parse: each must give what it gives alone (computed in a forked child)"),
@@ -128,6 +132,35 @@ def _alone(region, s):
 _alone_memo = {}
 
 
+TPL = [("es", "12 de marzo de 2020"), ("en", "March 12, 2020"), ("fr", "12 mars 2020"), ("de", "12. M\u00e4rz 2020"), ("ru", "12 \u043c\u0430\u0440\u0442\u0430 2020"),
+       ("sv", "12 mars 2020"), ("ja", "2020\u5e743\u670812\u65e5"), ("pt", "12 de mar\u00e7o de 2020")]
+
+
+def run_try_previous(c):
+    from dateparser.date import DateDataParser
+    if c["a"] == c["b"]:
+        return None
+    (la, sa), (lb, _) = TPL[c["a"]], TPL[c["b"]]
+    p1 = DateDataParser(languages=[la], try_previous_locales=True)
+    d1 = p1.get_date_data(sa)
+    if c["third"]:
+        lc, sc = TPL[(c["a"] + 3) % len(TPL)]
+        if lc != lb:
+            DateDataParser(languages=[lc], try_previous_locales=True).get_date_data(sc)
+    p2 = DateDataParser(languages=[lb], try_previous_locales=True)
+    d2 = p2.get_date_data(c["s"])
+    ref = DateDataParser(languages=[lb]).get_date_data(c["s"])
+    got = (d2.date_obj, d2.period, d2.locale)
+    exp = (ref.date_obj, ref.period, ref.locale)
+    if d1.locale not in (la, None):
+        return "bad", True, {"cls": {"form": "two-parsers-that-try-previous-locales", "kind": "first parser reports a locale outside its languages"},
+                             "expected": la, "observed": d1.locale, "detail": {"first": [la, sa]}}
+    if got != exp or (d2.locale is not None and d2.locale != lb):
+        return "bad", True, {"cls": {"form": "two-parsers-that-try-previous-locales", "kind": "second parser's result depends on the first parser", "locale_outside": d2.locale not in (lb, None)},
+                             "expected": exp, "observed": got, "detail": {"first": [la, sa], "second": [lb, c["s"]], "third_parser_between": c["third"]}}
+    return "ok", True, None
+
+
 def run_region_autodetect(c):
     from dateparser.date import DateDataParser
     R, s = c["region"], c["s"]
@@ -148,6 +181,8 @@ def run_case(sub, c):
     global _regional
     if sub == "autodetect-with-and-without-region":
         return run_region_autodetect(c)
+    if sub == "two-parsers-that-try-previous-locales":
+        return run_try_previous(c)
     gen, cor = strings()
     if sub in ("region-equals-locale", "language-list-with-region", "parse-function-selection-forms"):
         if _regional is None:
